@@ -21,7 +21,7 @@ SR_TECH = "symbolic execution of the real code on z3 real terms inside numpy obj
 CHECKS.update({
     "C02": ("SR", SR_TECH,
             "Bounded solver-checked: for every real value of every numeric cell, each column of model_matrix(...) equals literal scale x product of the pieces its label names (independent label parser), and with ensure_full_rank=False the label list is the complete Kronecker product in term order; configurations (term families <=3 terms x <=3 factors, intercept, rank mode, pandas/numpy output) enumerated.",
-            "Reals not floats; numeric columns enter through `context` as object arrays (ndarray branch of the encoders; replays use DataFrame columns); sparse output outside; treatment coding only; 7-row crossed layout with A:3 and B:2 levels.",
+            "Reals not floats; numeric columns enter through `context` as object arrays (ndarray branch of the encoders); sparse output, the Series branch and the narwhals materializer are visited natively at one generic point per configuration (ground companions, not solver-decided); treatment coding only; 7-row crossed layout with A:3 and B:2 levels.",
             "DESIGN.md §3 C02"),
     "C12": ("SR", SR_TECH + "; independent references: Cox-de Boor over z3 terms, cardinal interpolating splines solved in exact rationals",
             "Bounded solver-checked: for every real x (one row), on every path through the real basis_spline / cubic_spline, each column equals the independent reference, is non-negative and sums to one inside the bounds, and out-of-range values follow the selected extrapolation mode; degrees 0..3 (0..5 thorough), knot menus incl. ties, df-derived knots from concrete training vectors, centering constraint.",
@@ -44,12 +44,12 @@ CHECKS.update({
             "Mostly ground facts on realised specs; the solver's share is small here (evidence reports solver_queries). Known findings: printed-form lookups of terms whose factors are not sorted.",
             "DESIGN.md §3 C10"),
     "C06": ("SR", "hybrid: null layouts / entry points / index kinds enumerated; a symbolic tag column flows through the real pipeline and row identity is a solver-confirmed term identity (QF_LRA); policy facts compared natively with the documented semantics",
-            "Bounded: over every NaN layout of two nullable columns on 3 (quick) / 4 (thorough) rows (plus None in a categorical) x 8 formulas x 3 policies x caller drop sets x 4 entry points x 4 index kinds x outputs x override: every output row of every part IS the expected input row for all tag values, pandas index is the positional sub-index, the caller's set ends as exactly the removed positions, raise/ignore behave as documented.",
-            "Mostly enumeration (evidence: enumerated dimensions >> symbolic inputs); nulls inside symbolic columns excluded; quick visits a seeded slice of the variant dimensions for every (layout, formula, policy) cell.",
+            "Bounded: over every NaN layout of two nullable columns on 3 (quick) / 4 (thorough) rows (plus None in a categorical, pd.NA in nullable Int64/boolean) x 10 formulas x 3 policies x caller drop sets x 4 entry points x 4 index kinds x outputs x override: every output row of every part IS the expected input row for all tag values, pandas index is the positional sub-index, the caller's set ends as exactly the removed positions, raise/ignore behave as documented.",
+            "Mostly enumeration (evidence: enumerated dimensions >> symbolic inputs); nulls inside symbolic columns excluded; quick visits a seeded slice of the variant dimensions for every (layout, formula, policy) cell; sparse output and the narwhals materializer are visited natively (ground companions; index labels are judged on the pandas materializer only). Known finding: nullable boolean NA + ignore + sparse.",
             "DESIGN.md §3 C06"),
     "C07": ("SR", "hybrid SR: symbolic numeric columns (tag, a, b) + enumerated null layouts over the variables of different parts; per-part equalities as z3 term identities / QF_NRA queries",
-            "Bounded: for 12 structured specs (~, |, keyword and tuple nestings two deep, transform-sharing) x null layouts x index kinds x outputs: result and .model_spec have the formula's nested shape, all parts keep the same rows, each part equals for all values the separate build of its terms with the joint drop set, what its own spec regenerates, what the structured spec regenerates jointly, and replays its recorded state on a row subset.",
-            "4 rows; nesting <= 2; multistage formulas excluded.",
+            "Bounded: for 16 structured specs (~, |, keyword and tuple nestings two deep, transform-sharing) x null layouts x index kinds x outputs: result and .model_spec have the formula's nested shape, all parts keep the same rows, each part equals for all values the separate build of its terms with the joint drop set, what its own spec regenerates, what the structured spec regenerates jointly, and replays its recorded state on a row subset.",
+            "4 rows; nesting <= 2; multistage formulas excluded; sparse output and the narwhals materializer visited natively (ground companions).",
             "DESIGN.md §3 C07"),
     "C03": ("SR", "real pipeline builds reduced and unreduced matrices on a crossed design; z3 QF_LRA decides over the coefficient vector (the universally quantified object): no non-zero c with R.c = 0, span inclusions both ways, with an explicit 1e-8 margin on the exact rationals of the computed cells; second generic point + native float-rank replay before reporting",
             "Bounded: for every ordered family of <=2 terms (quick; + 300 seeded 3-term families; thorough: all 2955 ordered families) over the 15 factor subsets of {A(2), B(3), D(2), a numeric}, intercept on/off, clustering on/off, and the built-in contrasts for <=2-term families: the rank-reduced matrix has independent columns and the same column space as the unreduced one.",
@@ -64,8 +64,8 @@ CHECKS.update({
             "8 formulas, 7 rows; absent levels are exercised in C04; variables inside transform calls (poly(a,2)) fail earlier with FactorEvaluationError and are not counted.",
             "DESIGN.md §3 C09"),
     "C18": ("SR", SR_TECH,
-            "PARTIAL (hash-seed leg outside). Bounded solver-checked: for histories of <=3 calls from {model_matrix, spec reuse, unmaterialized-spec use, Formula method} x {D1, D2} over shared formula/spec objects with symbolic data, each call's result equals, cell by cell for all values, the same call made first on fresh objects; input arrays, frames, formula and every previously obtained spec's state are unchanged after every call.",
-            "PYTHONHASHSEED is a per-process constant of the C runtime and cannot be a symbolic variable; not addressed. 5 formulas, 7 rows, histories <= 3.",
+            "PARTIAL (hash-seed leg not solver-decided). Bounded solver-checked: for histories of <=3 calls from {model_matrix, spec reuse, unmaterialized-spec use, Formula method} x {D1, D2} over shared formula/spec objects with symbolic data, each call's result equals, cell by cell for all values, the same call made first on fresh objects; input arrays, frames, formula and every previously obtained spec's state are unchanged after every call.",
+            "PYTHONHASHSEED is a per-process constant of the C runtime and cannot be a symbolic variable: a native companion re-runs a fixed battery under several seeds in subprocesses and compares the serialised results (labelled ground; not solver-decided). 7 formulas, 7 rows, histories <= 3.",
             "DESIGN.md §3 C18"),
     "C20": ("SR+CH", SR_TECH + "; term-level structure by CrossHair enumeration of factor subsets / wrt tuples",
             "Bounded solver-checked: for term families (<=3 terms from a 12-term multilinear menu incl. categorical interactions and literal scalings) and wrt tuples of <=2 variables, every non-zero derivative term's materialised columns equal the iterated finite difference of the original term's columns for ALL data and ALL steps h != 0, zero derivatives have identically vanishing differences, and the number/order of terms is preserved.",
